@@ -237,6 +237,8 @@ pub struct ProtocolSet {
     fallback_names: HashMap<ProtocolName, ProtocolName>,
     /// Connection keep-alive settings for both main & fallback protocol names.
     keep_alives: HashMap<ProtocolName, SubstreamKeepAlive>,
+    /// Whether the connection has already been reported closed.
+    closed_reported: bool,
 }
 
 impl ProtocolSet {
@@ -285,6 +287,7 @@ impl ProtocolSet {
             fallback_names,
             keep_alives,
             connection: ConnectionHandle::new(connection_id, tx),
+            closed_reported: false,
         }
     }
 
@@ -418,9 +421,17 @@ impl ProtocolSet {
             })
             .collect::<FuturesUnordered<_>>();
 
+        // A closed receiver means that the protocol has shut down (e.g., the user dropped its
+        // handle). This must not prevent the remaining protocols from learning about the
+        // connection, nor fail the connection after some of them were already notified.
         while !futures.is_empty() {
             if let Some(Err(error)) = futures.next().await {
-                return Err(error.into());
+                tracing::debug!(
+                    target: LOG_TARGET,
+                    ?peer,
+                    ?error,
+                    "failed to report connection established to a protocol that has exited",
+                );
             }
         }
 
@@ -433,6 +444,11 @@ impl ProtocolSet {
         peer: PeerId,
         connection_id: ConnectionId,
     ) -> crate::Result<()> {
+        // A connection is reported closed exactly once, whichever exit path gets here first.
+        if std::mem::replace(&mut self.closed_reported, true) {
+            return Ok(());
+        }
+
         let mut futures = self
             .protocols
             .iter()
